@@ -273,3 +273,30 @@ Section Loop.
     induction l as [|a l IH]; intros s0; cbn [map fold_left fst snd]; [reflexivity|]. apply IH.
   Qed.
 End Loop.
+
+(* ------------------------------------------------------------------ with the model's own energy *)
+(* the energy the model computes for (donor d, acceptor a) in this frame (0 where the geometry is
+   degenerate: coinciding atoms) *)
+Definition frame_energy (p : ks_params) (rs : list residue) (xyz : list vec) (oob : vec) (d a : nat) : Z :=
+  match ks_energy_h (ks_K p) (ks_G p) xyz oob (hydrogens (ks_K p) (ks_G p) xyz oob (ks_hv p) rs) rs d a with
+  | Some e => e
+  | None => 0%Z
+  end.
+
+(* no two of the atoms entering an energy coincide, no null C=O vector *)
+Definition nondegenerate (p : ks_params) (rs : list residue) (xyz : list vec) (oob : vec) : Prop :=
+  forall d a, r_skip (nth d rs dres) = false -> r_skip (nth a rs dres) = false ->
+    ks_energy_h (ks_K p) (ks_G p) xyz oob (hydrogens (ks_K p) (ks_G p) xyz oob (ks_hv p) rs) rs d a <> None.
+
+Theorem ks_spec_concrete : forall p rs xyz oob, nondegenerate p rs xyz oob ->
+  kabsch_sander_frame p empty_nan rs xyz oob =
+  Some (map (fun d => slots_of (firstn 2 (ranked (map (fun a => (a, frame_energy p rs xyz oob d a))
+              (filter (eligible p xyz rs (frame_energy p rs xyz oob) d) (seq 0 (length rs)))))))
+            (seq 0 (length rs))).
+Proof.
+  intros p rs xyz oob ND. unfold kabsch_sander_frame.
+  rewrite (ks_loop_ext p empty_nan rs xyz _ (fun d a => Some (frame_energy p rs xyz oob d a))).
+  - apply ks_spec.
+  - intros d a Sd Sa. unfold frame_energy. specialize (ND d a Sd Sa).
+    destruct (ks_energy_h _ _ xyz oob _ rs d a); [reflexivity | contradiction].
+Qed.
